@@ -174,7 +174,13 @@ impl MarkdownWriter {
                 }
                 GraphInline::Link(url, title, t, inlines) => {
                     let text = inlines_to_markdown(&inlines, &self.options);
-                    if !is_ref_url(&url) && text.eq_ignore_ascii_case(&url) {
+                    if t == document::LinkType::WikiLink {
+                        // the event writer has no wiki-links: written as they are everywhere else
+                        events.push(Event::InlineHtml(format!("[[{}]]", url).into()));
+                    } else if t == document::LinkType::WikiLinkPiped {
+                        // (the event writer escapes the bar, as a table cell needs it)
+                        events.push(Event::InlineHtml(format!("[[{}|{}]]", url, text).into()));
+                    } else if !is_ref_url(&url) && text.eq_ignore_ascii_case(&url) {
                         events.push(Event::Start(Tag::Link {
                             title: title.into(),
                             link_type: pulldown_cmark::LinkType::Autolink,
